@@ -300,6 +300,57 @@ def float_relations(chk: Check, n):
     chk.cov["scipy_ttest_mono_df_violations"] = viol_df
 
 
+def closed_form_power(st, alt, ev, ut, alpha, ratio, var, nn, e):
+    nc_, nt_ = nn / (1 + ratio), nn * ratio / (1 + ratio)
+    se = math.sqrt(var / nc_ + var / nt_)
+    if ut:
+        df = nn - 2 if ev else (var / nc_ + var / nt_) ** 2 / ((var / nc_) ** 2 / (nc_ - 1) + (var / nt_) ** 2 / (nt_ - 1))
+        null, altd = st.t(df), st.nct(df, e / se)
+    else:
+        null, altd = st.norm(), st.norm(e / se)
+    if alt == "greater":
+        return altd.sf(null.isf(alpha))
+    if alt == "less":
+        return altd.cdf(null.ppf(alpha))
+    c = null.isf(alpha / 2)
+    return altd.cdf(-c) + altd.sf(c)
+
+
+def shared_statistics_sequence(chk: Check):
+    """MANY metric objects with different options (alternative, equal_var, use_t, ratio, alpha) solved one after the other
+    in one process on the SAME sample variance, n_obs and effect size: each must report the power of its own test
+    (nothing may be remembered per (variance, n) across objects) — and solving for the effect must invert it"""
+    import scipy.stats as st
+    import tea_tasting as tt
+    A = tt.aggr.Aggregates
+    var, nn = 0.5, 400
+    data = A(1000, {"x": 1.0}, {"x": var}, {})
+    order = [(a, ev, ut, r, al) for r in (1, 4, 0.25) for al in (0.05, 0.01) for a, ev, ut in CELLS]
+    chk.rng.shuffle(order)
+    for alt, ev, ut, ratio, alpha in order:
+        e = (-1 if alt == "less" else 1) * 0.12
+        kw = dict(alternative=alt, equal_var=ev, use_t=ut, alpha=alpha, ratio=ratio)
+        chk.case(("shared-statistics", alt, ev, ut, ratio, alpha), nontrivial=False)
+        chk.branch("float:shared-statistics-sequence")
+        try:
+            p = tt.Mean("x", effect_size=e, n_obs=nn, **kw).solve_power(data, "power")[0].power
+            es = tt.Mean("x", n_obs=nn, power=0.8, **kw).solve_power(data, "effect_size")[0].effect_size
+            back = tt.Mean("x", effect_size=es, n_obs=nn, **kw).solve_power(data, "power")[0].power
+        except Exception as ex:  # noqa: BLE001
+            chk.fail("solve_power raised", dict(options=kw, error=repr(ex)))
+            continue
+        want = closed_form_power(st, alt, ev, ut, alpha, ratio, var, nn, e)
+        want_back = closed_form_power(st, alt, ev, ut, alpha, ratio, var, nn, es)
+        if not math.isnan(want) and abs(p - want) > 1e-9:
+            chk.fail("power differs from the closed form evaluated with scipy directly (metric objects with other options "
+                     "were solved before on the same variance and n_obs)",
+                     dict(options=kw, var=var, n_obs=nn, effect=e, observed=p, expected=want))
+        elif not math.isnan(want_back) and (abs(back - 0.8) > 1e-6 or abs(want_back - 0.8) > 1e-6):
+            chk.fail("substituting the solved effect size does not reproduce the target power (metric objects with other "
+                     "options were solved before on the same variance and n_obs)",
+                     dict(options=kw, var=var, n_obs=nn, solved_effect=es, power_back=back, closed_form=want_back))
+
+
 def main():
     chk = Check(PROP)
     chk.trusted = common.BASE_TRUST + [
@@ -320,6 +371,7 @@ def main():
     if not q:
         exact_power(chk, 72, 2, have_model)
     float_relations(chk, 48 if q else 800)
+    shared_statistics_sequence(chk)
     chk.cov["rule"] = ("exact: random rational samples (with / without covariate) x 12 cells x ratio {1,1/3,2,7/2} x alpha x "
                        "scalar / sequence effect sizes (absolute / relative) x n_obs (scalar / sequence / inferred); float: "
                        "random valid aggregates, grids of 3 effects x 3 n_obs, all cells")
